@@ -64,10 +64,20 @@ def run_case(case, res):
     res.sample = {"config": cfg}
     lab = y >= 0
     mn, mx = X[lab].min(axis=0), X[lab].max(axis=0)
+    box_mn, box_mx = mn.copy(), mx.copy()
+    data_range = None
+    if rng.random() < 0.35:
+        # the user states the original range explicitly (wider than the bounding box of the labelled data)
+        wdt = mx - mn
+        mn = mn - np.array([rng.choice([0.0, rng.uniform(0.05, 0.5)]) for _ in range(d)]) * wdt
+        mx = mx + np.array([rng.choice([0.0, rng.uniform(0.05, 0.5)]) for _ in range(d)]) * wdt
+        data_range = (mn.copy(), mx.copy())
+        res.count("explicit_data_range")
+    cfg["explicit_data_range"] = data_range is not None
     sink = io.StringIO()
     with contextlib.redirect_stdout(sink):
-        cl = Classification(DataSet((X.copy(), y.copy()), name="learn"), split_percentage=split, split_evenly=cfg["split_evenly"],
-                            shuffle_data=cfg["shuffle"], print_output=False, log_level=100, print_level=100)
+        cl = Classification(DataSet((X.copy(), y.copy()), name="learn"), data_range=data_range, split_percentage=split,
+                            split_evenly=cfg["split_evenly"], shuffle_data=cfg["shuffle"], print_output=False, log_level=100, print_level=100)
         if cfg["mode"] == "standard":
             cl.perform_classification(masslumping=cfg["masslumping"], lambd=cfg["lambda"], minimum_level=1, maximum_level=cfg["lmax"],
                                       one_vs_others=cfg["one_vs_others"], print_metrics=False)
@@ -119,8 +129,16 @@ def run_case(case, res):
             _, Xn, yn, keep_old, cls_old = rng.choice(history)
         else:
             m = rng.choice([1, 5, 20, 60])
-            region = rng.choice(["inside", "inside", "partly", "outside"])
-            if region == "inside":
+            region = rng.choice(["inside", "inside", "partly", "outside", "bbox"])
+            if region == "bbox":
+                # samples exactly ON the learned range: learning samples attaining a minimum / maximum, corners of the range
+                rows = [X[lab][np.argmin(X[lab][:, j])] for j in range(d)] + [X[lab][np.argmax(X[lab][:, j])] for j in range(d)]
+                rows += [np.where(npr.rand(d) < 0.5, mn, mx) for _ in range(3)] + [mn.copy(), mx.copy()]
+                rows += list(X[lab][npr.choice(int(lab.sum()), size=min(m, int(lab.sum())), replace=False)])
+                Xn = np.array(rows, dtype=float)
+                m = len(Xn)
+                res.count("samples_on_learned_range")
+            elif region == "inside":
                 Xn = mn + npr.uniform(0.02, 0.98, size=(m, d)) * (mx - mn)
             elif region == "partly":
                 Xn = mn + npr.uniform(-0.3, 1.3, size=(m, d)) * (mx - mn)
